@@ -14,6 +14,7 @@ LEVEL = "exploration"
 TECHNIQUE = "differential runtime monitor: every serialise/parse/id call of five Tx classes compared with an independent wire-format reference"
 RULE = ("cases: (transaction class, transaction) pairs; transactions from a deterministic sweep that puts each compact-size boundary "
         "(0xfc/0xfd/0xfe/0xffff/0x10000) on each length and count field and each 32/64-bit boundary on each integer field, plus "
+        "one transaction each with 65536 inputs / 65536 outputs / 65536 witness items / a 65537-byte witness item (BTC and LTC parsers), "
         "seeded random transactions (1..300 inputs, 0..300 outputs, witness modes none/all-empty/some/all/first/last, empty witness "
         "items, 252..254-item stacks, amounts up to 2^64-1); spendable records with boundary-biased fields. Distinct by (class, "
         "field-shape vector) resp. (form, field classes); non-trivial when at least one field sits on a compact-size or integer-width "
@@ -26,14 +27,19 @@ ASSUMPTIONS = [
     "versions are taken from 0..2^32-1 (the wire field is 32 bits wide)",
     "'equal transaction' is read field-wise: version, lock time, and per input outpoint hash, index, script, sequence, witness stack; "
     "per output amount and script",
-    "binary spendable form: besides the pure round trip, from_bin is also fed bytes laid out as Spendable.parse documents "
-    "(TxOut wire form, 32-byte hash, u32 index, compact-size block index, one flag byte, compact-size block index), so that from_bin is "
-    "observed even where as_bin(as_spendable=True) fails",
+    "spendable forms are judged on the round trip only (fields out = fields in); the text, dictionary and binary layouts themselves are "
+    "not prescribed by the statement and are not compared with anything",
+    "hex output is compared as bytes (letter case is left open); if the spelling differs from lower-case hex, the library's own text "
+    "must parse back",
+    "the spent-output extension is the TxOut wire forms of the spent outputs, in input order, appended to the transaction bytes; the "
+    "unspents are given either as TxOut or as Spendable objects (set_unspents documents both); a transaction object that carries "
+    "unspents has the same plain bytes, id and witness id as one that does not",
 ]
 EXPLANATION = ("as_bin/as_hex bytes must equal the reference serialisation (BIP144 form iff some witness stack is non-empty); from_bin/"
                "from_hex/parse of reference-made bytes must give back the fields and re-serialise identically; id/hash/w_id must equal the "
                "reference digests, id must not move and w_id must move when only witness data changes; the spent-output extension and "
-               "each spendable form must round-trip field-wise")
+               "each spendable form must round-trip field-wise. Every region of the quantified-over domain has its own 'dom:' counter and "
+               "every transaction class a 'class:' counter; a run in which one of them stays at zero is inconclusive")
 TIMEOUT = {"quick": 600, "thorough": 3 * 3600}
 
 NETS = ["BTC", "LTC", "BCH", "BTG", "GRS"]
@@ -136,6 +142,93 @@ def _H(net):
     return R.dsha
 
 
+def _unhex(text):
+    try:
+        return bytes.fromhex(text)
+    except ValueError:
+        return None
+
+
+# ---------------------------------------------------------------------------------------------
+# regions of the quantified-over domain: one counter each, all of them must be reached (post_merge_requirements)
+
+_LEN_MARKS = (0xfc, 0xfd, 0xffff, 0x10000)
+
+
+def _len_regions(prefix, lengths, out):
+    for n in lengths:
+        if n in _LEN_MARKS:
+            out.add("%s=%#x" % (prefix, n))
+
+
+def _regions(d):
+    """labels of the domain regions (statement: 'Quantified over') one transaction sits in"""
+    out = set()
+    ins, outs = d["ins"], d["outs"]
+    n_in, n_out = len(ins), len(outs)
+    out.add("dom:n_in=1" if n_in == 1 else "dom:n_in>=253" if n_in >= 253 else "dom:n_in=2..252")
+    if n_in >= 0x10000:
+        out.add("dom:n_in>=0x10000")
+    out.add("dom:n_out=0" if n_out == 0 else "dom:n_out>=253" if n_out >= 253 else "dom:n_out=1..252")
+    if n_out >= 0x10000:
+        out.add("dom:n_out>=0x10000")
+    _len_regions("dom:in_script_len", {len(i["script"]) for i in ins}, out)
+    _len_regions("dom:out_script_len", {len(o["script"]) for o in outs}, out)
+    with_w = 0
+    for i in ins:
+        w = i["witness"]
+        if not w:
+            continue
+        with_w += 1
+        if len(w) >= 253:
+            out.add("dom:witness_items>=253")
+            if len(w) >= 0x10000:
+                out.add("dom:witness_items>=0x10000")
+        ls = {len(x) for x in w}
+        _len_regions("dom:witness_item_len", ls, out)
+        if 0 in ls:
+            out.add("dom:witness_empty_item")
+            if ls == {0}:
+                out.add("dom:witness_stack_of_empty_items_only")
+        if max(ls) > 0x10000:
+            out.add("dom:witness_item_len>0x10000")
+    out.add("dom:no_witness(legacy form)" if with_w == 0 else "dom:witness_on_all_inputs" if with_w == n_in else
+            "dom:witness_and_non_witness_inputs_mixed")
+    for o in outs:
+        v = o["value"]
+        if v == 0:
+            out.add("dom:amount=0")
+        elif v == (1 << 64) - 1:
+            out.add("dom:amount=2^64-1")
+        if v >= 1 << 63:
+            out.add("dom:amount>=2^63")
+        elif v > 21 * 10 ** 14:
+            out.add("dom:amount>21e14")
+    for f in ("version", "lock_time"):
+        if d[f] >= 0x80000000:
+            out.add("dom:%s>=2^31" % f)
+    if any(i["sequence"] not in (0xffffffff, 0xfffffffe) for i in ins):
+        out.add("dom:sequence_not_final")
+    return out
+
+
+DOMAIN_REQUIRED = (
+    ["dom:n_in=1", "dom:n_in=2..252", "dom:n_in>=253", "dom:n_in>=0x10000", "dom:n_out=0", "dom:n_out=1..252", "dom:n_out>=253",
+     "dom:n_out>=0x10000", "dom:witness_items>=253", "dom:witness_items>=0x10000", "dom:witness_empty_item",
+     "dom:witness_stack_of_empty_items_only", "dom:witness_item_len>0x10000", "dom:no_witness(legacy form)",
+     "dom:witness_on_all_inputs", "dom:witness_and_non_witness_inputs_mixed", "dom:amount=0", "dom:amount=2^64-1", "dom:amount>=2^63",
+     "dom:amount>21e14", "dom:version>=2^31", "dom:lock_time>=2^31", "dom:sequence_not_final"] +
+    ["dom:%s=%#x" % (k, n) for k in ("in_script_len", "out_script_len", "witness_item_len") for n in _LEN_MARKS] +
+    ["dom:spendable." + k for k in ("amount=0", "amount>=2^63", "amount=2^64-1", "script_len=0", "script_len=0xfd", "script_len>=0xffff",
+                                    "block_index>=0xfd", "block_index>=0x10000", "seems_spent", "index>=2^31")] +
+    ["dom:unspents_as_TxOut", "dom:unspents_as_Spendable", "dom:unspent_amount>=2^63"])
+
+
+def post_merge_requirements():
+    """every region of the domain and every transaction class, whichever shard reached it"""
+    return list(DOMAIN_REQUIRED) + ["class:" + n for n in NETS]
+
+
 def _mutate_witness(d, rng):
     """same transaction, different witness data"""
     e = G.norm(d)
@@ -161,7 +254,21 @@ def _mutate_witness(d, rng):
     return e
 
 
-def _check_tx(net, T, d, rec, rng, via="attr", unspents=None, light=False):
+def _plain_forms_with_unspents(obj, label, case, rec, full, e_hash, e_id, e_wid):
+    rec.ev("Tx.as_bin/id/w_id(object carrying unspents)")
+    st, b = observe(obj.as_bin)
+    if st != "ok" or b != full:
+        rec.violation("tx.unspents.plain_bytes_changed", dict(case, on=label), b if st != "ok" else b[-80:], full[-80:])
+    st, h = observe(obj.hash)
+    st2, i_ = observe(obj.id)
+    if st != "ok" or st2 != "ok" or bytes(h) != e_hash or i_ != e_id:
+        rec.violation("tx.unspents.id_changed", dict(case, on=label), i_, e_id)
+    st, w_ = observe(obj.w_id)
+    if st != "ok" or w_ != e_wid:
+        rec.violation("tx.unspents.w_id_changed", dict(case, on=label), w_, e_wid)
+
+
+def _check_tx(net, T, d, rec, rng, via="attr", unspents=None, light=False, unspents_as="txout"):
     """Every C07 observation for one (class, transaction)."""
     case = {"kind": "tx", "net": net, "tx": G.pack(d), "via": via}
     H = _H(net)
@@ -169,6 +276,9 @@ def _check_tx(net, T, d, rec, rng, via="attr", unspents=None, light=False):
     legacy = R.serialize(d, False)
     hasw = R.has_witness(d)
     rec.case((net, G.shape(d)), nontrivial=G.on_boundary(d))
+    rec.ev("class:" + net)
+    for r in _regions(d):
+        rec.ev(r)
 
     st, tx = observe(G.to_pycoin, T, d, via)
     if st != "ok":
@@ -192,8 +302,14 @@ def _check_tx(net, T, d, rec, rng, via="attr", unspents=None, light=False):
         rec.violation(mech, case, b[:80], full[:80], detail={"len_observed": len(b), "len_expected": len(full)})
     rec.ev("Tx.as_hex")
     st, hx = observe(tx.as_hex)
-    if st != "ok" or hx != full.hex():
+    if st != "ok" or not isinstance(hx, str) or _unhex(hx) != full:
         rec.violation("tx.as_hex.mismatch", case, hx if st != "ok" else hx[:160], full.hex()[:160])
+    elif hx != full.hex():
+        # same bytes, other spelling (letter case is not fixed by the statement): the library's own text must parse back
+        rec.ev("Tx.from_hex(own spelling)")
+        st, t0 = observe(T.from_hex, hx)
+        if st != "ok" or G.first_difference(G.norm(d), G.from_pycoin(t0)):
+            rec.violation("tx.as_hex.own_text_not_parsed_back", case, t0 if st != "ok" else None, "transaction")
     # -- parse reference-made bytes, three entry points
     want = G.norm(d)
     parsed = None
@@ -263,13 +379,29 @@ def _check_tx(net, T, d, rec, rng, via="attr", unspents=None, light=False):
                 rec.violation("tx.w_id.mismatch", dict(case, tx=G.pack(d2)), wb, H(R.serialize(d2))[::-1].hex())
     # -- spent-output extension (non-zero amounts)
     if unspents:
-        c3 = dict(case, unspents=[{"value": u["value"], "script": G._pack_bytes(u["script"])} for u in unspents])
+        c3 = dict(case, unspents=[{"value": u["value"], "script": G._pack_bytes(u["script"])} for u in unspents], unspents_as=unspents_as)
         ext = full + b"".join(R.ser_out(u) for u in unspents)
-        tx.set_unspents([T.TxOut(u["value"], u["script"]) for u in unspents])
+        rec.ev("dom:unspents_as_Spendable" if unspents_as == "spendable" else "dom:unspents_as_TxOut")
+        if any(u["value"] >= 1 << 63 for u in unspents):
+            rec.ev("dom:unspent_amount>=2^63")
+        if unspents_as == "spendable":      # set_unspents takes "TxOut (or the subclass Spendable) objects"
+            objs = [T.Spendable(u["value"], u["script"], i["prev"], i["index"]) for u, i in zip(unspents, d["ins"])]
+        else:
+            objs = [T.TxOut(u["value"], u["script"]) for u in unspents]
+        st, r = observe(tx.set_unspents, objs)
+        if st != "ok":
+            rec.violation("tx.unspents.set_unspents_raises", c3, r, None)
+            return tx
         rec.ev("Tx.as_bin(include_unspents)")
         st, bu = observe(tx.as_bin, include_unspents=True)
         if st != "ok" or bu != ext:
             rec.violation("tx.unspents.bytes_mismatch", c3, bu if st != "ok" else bu[-80:], ext[-80:])
+        rec.ev("Tx.as_hex(include_unspents)")
+        st, hu = observe(tx.as_hex, include_unspents=True)
+        if st != "ok" or not isinstance(hu, str) or _unhex(hu) != ext:
+            rec.violation("tx.unspents.hex_mismatch", c3, hu if st != "ok" else hu[-160:], ext.hex()[-160:])
+        # a transaction that carries spent outputs is still the same transaction: plain bytes and ids unchanged
+        _plain_forms_with_unspents(tx, "built", c3, rec, full, e_hash, e_id, e_wid)
         for name, fn in (("from_bin", lambda: T.from_bin(ext)), ("from_hex", lambda: T.from_hex(ext.hex()))):
             rec.ev("Tx.%s(with unspents)" % name)
             st, t4 = observe(fn)
@@ -294,17 +426,83 @@ def _check_tx(net, T, d, rec, rng, via="attr", unspents=None, light=False):
             st, b5 = observe(t4.as_bin, include_unspents=True)
             if st != "ok" or b5 != ext:
                 rec.violation("tx.unspents.reserialise_mismatch", c3, b5 if st != "ok" else b5[-80:], ext[-80:])
+            if name == "from_bin":
+                _plain_forms_with_unspents(t4, "parsed", c3, rec, full, e_hash, e_id, e_wid)
     return tx
 
 
-def _live_edit_history(net, T, d, rec, rng):
-    """one Tx object queried, edited in place, queried again: ids and bytes must always be those of the CURRENT fields"""
+EDIT_OPS = ["version", "lock_time", "sequence", "prev_index", "prev_hash", "in_script", "witness", "out_value", "out_script", "add_out", "pop_out"]
+
+
+def _draw_edit(d, rng):
+    """one in-place edit [op, input index, output index, value] applicable to d, or None (rng consumption as before)"""
+    e = rng.choice(EDIT_OPS)
+    k = rng.randrange(len(d["ins"]))
+    j, v = 0, None
+    if e in ("version", "lock_time", "prev_index"):
+        v = rng.randrange(1 << 32)
+    elif e == "sequence":
+        v = rng.choice([0, 1, 0xfffffffd, 0xfffffffe, rng.randrange(1 << 32)])
+    elif e == "prev_hash":
+        v = bytes(rng.randrange(256) for _ in range(32))
+    elif e == "in_script":
+        v = bytes(rng.randrange(256) for _ in range(rng.choice([0, 1, 30, 253])))
+    elif e == "witness":
+        v = [bytes(rng.randrange(256) for _ in range(rng.choice([0, 1, 33]))) for _ in range(rng.choice([0, 1, 2]))]
+    elif e in ("out_value", "out_script") and d["outs"]:
+        j = rng.randrange(len(d["outs"]))
+        v = rng.randrange(1 << 50) if e == "out_value" else bytes(rng.randrange(256) for _ in range(rng.choice([0, 25, 34])))
+    elif e == "add_out":
+        v = 7
+    elif e == "pop_out" and len(d["outs"]) > 1:
+        pass
+    else:
+        return None
+    return [e, k, j, v]
+
+
+def _apply_edit(T, tx, d, edit):
+    """the same edit on the live object (public attributes) and on the model"""
+    e, k, j, v = edit
+    if e == "version":
+        d["version"] = tx.version = v
+    elif e == "lock_time":
+        d["lock_time"] = tx.lock_time = v
+    elif e == "sequence":
+        d["ins"][k]["sequence"] = tx.txs_in[k].sequence = v
+    elif e == "prev_index":
+        d["ins"][k]["index"] = tx.txs_in[k].previous_index = v
+    elif e == "prev_hash":
+        d["ins"][k]["prev"] = tx.txs_in[k].previous_hash = v
+    elif e == "in_script":
+        d["ins"][k]["script"] = tx.txs_in[k].script = v
+    elif e == "witness":
+        d["ins"][k]["witness"] = list(v)
+        tx.txs_in[k].witness = list(v)
+    elif e == "out_value":
+        d["outs"][j]["value"] = tx.txs_out[j].coin_value = v
+    elif e == "out_script":
+        d["outs"][j]["script"] = tx.txs_out[j].script = v
+    elif e == "add_out":
+        d["outs"].append({"value": v, "script": b"\x51"})
+        tx.txs_out.append(T.TxOut(v, b"\x51"))
+    elif e == "pop_out":
+        d["outs"].pop()
+        tx.txs_out.pop()
+    else:
+        raise ValueError(e)
+
+
+def _live_edit_history(net, T, d, rec, rng, edits=None):
+    """one Tx object queried, edited in place, queried again: ids and bytes must always be those of the CURRENT fields.
+    edits=None draws 2..6 random edits; a list replays exactly those."""
     H = _H(net)
     d = G.norm(d)
     if len(R.serialize(d)) > 4000 or not d["ins"]:
         return
+    tx0 = G.pack(G.norm(d))
     tx = G.to_pycoin(T, d)
-    hist = []
+    done = []
 
     def judge():
         rec.ev("Tx.id(after in-place edit)")
@@ -315,58 +513,38 @@ def _live_edit_history(net, T, d, rec, rng):
         st2, w = observe(tx.w_id)
         st3, b = observe(tx.as_bin)
         st4, h = observe(tx.hash)
-        case = {"kind": "edit_history", "net": net, "tx": G.pack(d), "history": list(hist)}
+        hist = [e[0] for e in done]
+        case = {"kind": "edit_history", "net": net, "tx0": tx0, "edits": [list(e) for e in done], "history": hist}
         rec.case(("edit", net, tuple(hist), want_id))
         if st3 != "ok" or b != want_bin:
             rec.violation("tx.history.bytes_stale", case, b if st3 != "ok" else b[:60], want_bin[:60])
-        elif st1 != "ok" or a != want_id or st4 != "ok" or h != H(R.serialize(d, False)):
+        elif st1 != "ok" or a != want_id or st4 != "ok" or bytes(h) != H(R.serialize(d, False)):
             rec.violation("tx.history.id_stale_after." + (hist[-1] if hist else "build"), case, a, want_id)
         elif st2 != "ok" or w != want_w:
             rec.violation("tx.history.w_id_stale_after." + (hist[-1] if hist else "build"), case, w, want_w)
     judge()
-    for _ in range(rng.randrange(2, 7)):
-        e = rng.choice(["version", "lock_time", "sequence", "prev_index", "prev_hash", "in_script", "witness", "out_value", "out_script", "add_out", "pop_out"])
-        k = rng.randrange(len(d["ins"]))
-        if e == "version":
-            d["version"] = tx.version = rng.randrange(1 << 32)
-        elif e == "lock_time":
-            d["lock_time"] = tx.lock_time = rng.randrange(1 << 32)
-        elif e == "sequence":
-            d["ins"][k]["sequence"] = tx.txs_in[k].sequence = rng.choice([0, 1, 0xfffffffd, 0xfffffffe, rng.randrange(1 << 32)])
-        elif e == "prev_index":
-            d["ins"][k]["index"] = tx.txs_in[k].previous_index = rng.randrange(1 << 32)
-        elif e == "prev_hash":
-            d["ins"][k]["prev"] = tx.txs_in[k].previous_hash = bytes(rng.randrange(256) for _ in range(32))
-        elif e == "in_script":
-            d["ins"][k]["script"] = tx.txs_in[k].script = bytes(rng.randrange(256) for _ in range(rng.choice([0, 1, 30, 253])))
-        elif e == "witness":
-            wit = [bytes(rng.randrange(256) for _ in range(rng.choice([0, 1, 33]))) for _ in range(rng.choice([0, 1, 2]))]
-            d["ins"][k]["witness"] = list(wit)
-            tx.txs_in[k].witness = list(wit)
-        elif e in ("out_value", "out_script") and d["outs"]:
-            j = rng.randrange(len(d["outs"]))
-            if e == "out_value":
-                d["outs"][j]["value"] = tx.txs_out[j].coin_value = rng.randrange(1 << 50)
-            else:
-                d["outs"][j]["script"] = tx.txs_out[j].script = bytes(rng.randrange(256) for _ in range(rng.choice([0, 25, 34])))
-        elif e == "add_out":
-            d["outs"].append({"value": 7, "script": b"\x51"})
-            tx.txs_out.append(T.TxOut(7, b"\x51"))
-        elif e == "pop_out" and len(d["outs"]) > 1:
-            d["outs"].pop()
-            tx.txs_out.pop()
-        else:
-            continue
-        hist.append(e)
-        judge()
+    if edits is None:
+        for _ in range(rng.randrange(2, 7)):
+            edit = _draw_edit(d, rng)
+            if edit is None:
+                continue
+            _apply_edit(T, tx, d, edit)
+            done.append(edit)
+            judge()
+    else:
+        for edit in edits:
+            _apply_edit(T, tx, d, edit)
+            done.append(edit)
+            judge()
 
 
-def _inplace_container_history(net, T, rec, rng):
+def _inplace_container_history(net, T, rec, rng, item=None):
     """objects built through the plain constructors, then a container attribute of ONE of them is filled in place
     (tx_in.witness.append, txs_out.append): every other live or later-parsed object must be unaffected"""
     H = _H(net)
     h = [bytes(rng.randrange(1, 256) for _ in range(32)) for _ in range(4)]
-    item = bytes(rng.randrange(256) for _ in range(rng.choice([1, 33, 72])))
+    drawn = bytes(rng.randrange(256) for _ in range(rng.choice([1, 33, 72])))
+    item = drawn if item is None else item
     da = {"version": 1, "lock_time": 0, "ins": [{"prev": h[0], "index": 0, "script": b"\x51", "sequence": 0xffffffff, "witness": []},
                                                 {"prev": h[1], "index": 1, "script": b"", "sequence": 5, "witness": []}],
           "outs": [{"value": 5, "script": b"\x51"}]}
@@ -411,11 +589,6 @@ def _rand_unspents(d, rng):
 # ---------------------------------------------------------------------------------------------
 # spendables
 
-def _spendable_layout(f):
-    return (f["coin_value"].to_bytes(8, "little") + R.varstr(f["script"]) + f["tx_hash"] + f["tx_out_index"].to_bytes(4, "little") +
-            R.csize(f["block_index_available"]) + (b"\x01" if f["does_seem_spent"] else b"\x00") + R.csize(f["block_index_spent"]))
-
-
 def _sp_diff(a, b):
     for k in G.SPENDABLE_FIELDS:
         if a[k] != b[k]:
@@ -429,12 +602,41 @@ def _sp_shape(f):
             f["tx_hash"] == G.NULL_HASH)
 
 
+def _sp_regions(f):
+    out = []
+    v, n = f["coin_value"], len(f["script"])
+    if v == 0:
+        out.append("dom:spendable.amount=0")
+    if v >= 1 << 63:
+        out.append("dom:spendable.amount>=2^63")
+    if v == (1 << 64) - 1:
+        out.append("dom:spendable.amount=2^64-1")
+    if n == 0:
+        out.append("dom:spendable.script_len=0")
+    if n == 0xfd:
+        out.append("dom:spendable.script_len=0xfd")
+    if n >= 0xffff:
+        out.append("dom:spendable.script_len>=0xffff")
+    hi = max(f["block_index_available"], f["block_index_spent"])
+    if hi >= 0xfd:
+        out.append("dom:spendable.block_index>=0xfd")
+    if hi >= 0x10000:
+        out.append("dom:spendable.block_index>=0x10000")
+    if f["does_seem_spent"]:
+        out.append("dom:spendable.seems_spent")
+    if f["tx_out_index"] >= 1 << 31:
+        out.append("dom:spendable.index>=2^31")
+    return out
+
+
 def _check_spendable(S, f, rec):
     case = {"kind": "spendable", "fields": dict(f, script=G._pack_bytes(f["script"]))}
     want = dict(f, script=bytes(f["script"]), does_seem_spent=int(f["does_seem_spent"]))
     rec.case(("sp", _sp_shape(f)), nontrivial=(f["coin_value"] in G.AMOUNT_EDGES[2:] or f["tx_out_index"] in G.U32_EDGES[3:] or
                                                len(f["script"]) in (0xfc, 0xfd, 0xfe, 0xffff, 0x10000) or
                                                f["block_index_available"] >= 0xfc or f["block_index_spent"] >= 0xfc))
+    for r in _sp_regions(f):
+        rec.ev(r)
     st, s = observe(G.spendable_to_pycoin, S, f)
     if st != "ok":
         rec.violation("spendable.construct.raises", case, s, "object")
@@ -488,14 +690,6 @@ def _check_spendable(S, f, rec):
             diff = _sp_diff(want, G.spendable_from_pycoin(s4))
             if diff:
                 rec.violation("spendable.bin.roundtrip_mismatch." + diff, case, G.spendable_from_pycoin(s4)[diff], want[diff])
-    rec.ev("Spendable.from_bin")
-    st, s5 = observe(S.from_bin, _spendable_layout(f))
-    if st != "ok":
-        rec.violation("spendable.bin.layout_parse_raises", case, s5, "spendable")
-    else:
-        diff = _sp_diff(want, G.spendable_from_pycoin(s5))
-        if diff:
-            rec.violation("spendable.bin.layout_parse_mismatch." + diff, case, G.spendable_from_pycoin(s5)[diff], want[diff])
     # stream() to a file object is the same operation as as_bin
     f_ = io.BytesIO()
     rec.ev("Spendable.stream(as_spendable)")
@@ -503,6 +697,14 @@ def _check_spendable(S, f, rec):
     if st != "ok":
         mech = "spendable.bin.as_bin_attribute_error" if isinstance(r, AttributeError) else "spendable.bin.as_bin_raises"
         rec.violation(mech, case, r, "bytes")
+
+
+def _huge_count_sweep():
+    yield "n_in=0x10000", G.simple_tx(n_in=0x10000)
+    yield "n_out=0x10000", G.simple_tx(n_out=0x10000)
+    yield "n_witness_items=0x10000", G.simple_tx(witness=[b""] * 0xffff + [b"\x01"])
+    t = G.simple_tx(witness=[b"\x07" * 0x10001])
+    yield "witness_item_len=0x10001", t
 
 
 def _spendable_sweep():
@@ -533,15 +735,21 @@ def run_shard(spec, rec):
         rec.require("Spendable.as_text", "Spendable.from_text", "Spendable.as_dict", "Spendable.from_dict", "Spendable.from_bin",
                     "Spendable.as_bin(as_spendable)")
     else:
-        rec.require("Tx.as_bin", "Tx.as_hex", "Tx.from_bin", "Tx.from_hex", "Tx.parse", "Tx.id", "Tx.w_id", "Tx.hash",
-                    "Tx.as_bin(include_unspents)", "Tx.from_bin(with unspents)")
+        rec.require("Tx.as_bin", "Tx.as_hex", "Tx.from_bin", "Tx.from_hex", "Tx.parse", "Tx.reserialise", "Tx.id", "Tx.w_id", "Tx.hash",
+                    "witness_variation", "Tx.as_bin(include_unspents)", "Tx.as_hex(include_unspents)", "Tx.from_bin(with unspents)",
+                    "Tx.from_hex(with unspents)", "Tx.reserialise(with unspents)", "Tx.as_bin/id/w_id(object carrying unspents)")
     order = [n for n in ROTATION if n in nets]
     if spec["kind"] == "sweep":
-        for label, d in G.boundary_sweep():
+        for n_label, (label, d) in enumerate(G.boundary_sweep()):
             for k, net in enumerate(nets):
                 via = ("attr", "set_witness", "tuple")[k % 3]
                 _check_tx(net, nets[net], d, rec, rng, via=via, unspents=_rand_unspents(d, rng) if len(d["ins"]) <= 300 else None,
-                          light=len(d["ins"]) + len(d["outs"]) > 100 and net not in ("BTC", "LTC"))
+                          light=len(d["ins"]) + len(d["outs"]) > 100 and net not in ("BTC", "LTC"),
+                          unspents_as=("txout", "spendable")[(n_label + k) % 2])
+        # count fields across 0xffff/0x10000 (the two parser implementations: Bitcoin base class and Litecoin)
+        for label, d in _huge_count_sweep():
+            for net in ("BTC", "LTC"):
+                _check_tx(net, nets[net], d, rec, rng, via="attr", light=True)
         rec.sample({"class": "BTC", "sweep_label": "in_script_len=0xfd", "txid": R.txid_hex(G.simple_tx(script_len=0xfd))})
         S = nets["BTC"].Spendable
         for f in _spendable_sweep():
@@ -554,7 +762,9 @@ def run_shard(spec, rec):
             d = G.rand_tx(rng)
             via = ("attr", "attr", "set_witness", "tuple")[rng.randrange(4)]
             u = _rand_unspents(d, rng) if rng.random() < 0.4 else None
-            _check_tx(net, nets[net], d, rec, rng, via=via, unspents=u)
+            _check_tx(net, nets[net], d, rec, rng, via=via, unspents=u, unspents_as="spendable" if i % 3 == 1 else "txout")
+            if i == 0:
+                rec.require("Tx.id(after in-place edit)", "inplace_container_history")
             if i % 3 == 0:
                 _live_edit_history(net, nets[net], d, rec, rng)
             if i % 50 == 7:
@@ -585,13 +795,28 @@ def replay_case(case, rec):
             f[k] = int(f[k])
         _check_spendable(nets["BTC"].Spendable, f, rec)
         return
+    net = case.get("net", "BTC")
+    if case.get("kind") == "edit_history":
+        edits = []
+        for e, k, j, v in case.get("edits") or []:
+            if isinstance(v, str) and not isinstance(v, bytes):
+                v = G._unpack_bytes(v) if e in ("prev_hash", "in_script", "out_script") else int(v)
+            elif e == "witness":
+                v = [G._unpack_bytes(x) for x in (v or [])]
+            edits.append([e, int(k), int(j), v])
+        _live_edit_history(net, nets[net], G.unpack(case["tx0"]), rec, rng, edits=edits)
+        return
+    if case.get("kind") == "inplace_container":
+        _inplace_container_history(net, nets[net], rec, rng, item=G._unpack_bytes(case["item"]))
+        return
     d = G.unpack(case["tx"])
     u = None
     if case.get("unspents"):
         u = [{"value": int(x["value"]), "script": G._unpack_bytes(x["script"])} for x in case["unspents"]]
     net = case.get("net", "BTC")
     for seed in range(4):          # the witness variation is random; try the four modes
-        _check_tx(net, nets[net], d, rec, shard_rng(seed, PROPERTY, "replay", 0), via=case.get("via", "attr"), unspents=u)
+        _check_tx(net, nets[net], d, rec, shard_rng(seed, PROPERTY, "replay", 0), via=case.get("via", "attr"), unspents=u,
+                  unspents_as=case.get("unspents_as", "txout"), light=len(d["ins"]) + len(d["outs"]) > 5000)
     if case.get("tx2"):
         d2 = G.unpack(case["tx2"])
         T = nets[net]
